@@ -3,6 +3,38 @@ NOTES = ("All checks share one Coq development and one harness; ./check --setup 
          "Fix commits in /repo (F1-F7) are listed in known_findings.json as fixed entries.")
 NOT_APPLICABLE = {}
 CHECKS = {
+    "C01": {
+        "text": "Theorem C01_recovery over the Gallina model, for any permutation F in place of Keccak-f: every report survives to_bytes/from_bytes, "
+                "every collection of reports (subset, permutation, repeats, surplus) with t distinct shares recovers the shared value, and every report "
+                "then opens to exactly (measurement, associated data) with None/empty/non-empty kept apart; any threshold 1 <= t < 2^32, any lengths "
+                "that fit the 32-bit framing, any client randomness. Rests on Lagrange-at-zero over the proved field, STROBE enc/dec and MAC round "
+                "trips (any F), and the codec round trips. Tied to the Rust by the bit-exact scenario run.",
+        "note": "Premise: the coefficient sampler returned (observed). Share points are inputs of the model (OS RNG in the code).",
+    },
+    "C02": {
+        "text": "Proved: fewer distinct points than the first share's threshold => Err (any padding); threshold 0 => Err; a rewritten threshold "
+                "yields Err or an explicit MAC coincidence; dealer structure (t coefficients, consecutive separate draws). Measured on every run: "
+                "non-zero / distinct coefficients, no secret in the clear. Partial: pseudo-randomness is not a theorem.",
+        "note": "Reduction form: MacCoincidence is a concrete pair of different sharings with equal MACs, never a hypothesis.",
+    },
+    "C05": {
+        "text": "Proved for any F: recovery from ANY collection whose first share is honest returns that sharing or exhibits a MAC coincidence; "
+                "whatever is returned verifies under the first share's threshold and MAC; an altered tag is always rejected; non-first fields are "
+                "ignored; never panics. Fault campaign against the Rust on every run.",
+        "note": "Known finding C05/t1-share-point (threshold 1: share point not bound) is listed in known_findings.json.",
+    },
+    "C08": {
+        "text": "Proved: decode(encode v) = v for Shamir shares, adss shares and reports; chunk helper round trip; an accepted chunk is the slice its "
+                "header delimits; out-of-range elements rejected exactly; all four decoders total (no Panic outcome). Canonical re-encoding of accepted "
+                "non-canonical strings is checked against an independent parser on every run (proof of that clause: sharks level only so far).",
+        "note": "Model carries every slice operation of the Rust as a possibly-panicking primitive.",
+    },
+    "C09": {
+        "text": "The model marks every panicking primitive of the Rust (slice indexing, unwrap) with an outcome Panic; theorems show it unreachable for "
+                "all inputs for load_bytes, the three decoders, sharks recover and adss recover. The Rust is run under catch_unwind on the malformed "
+                "streams; a panic is reported with the input. ppoprf loaders / eval / verify / group_shares: correspondence and panic capture.",
+        "note": "Partial: aborts inside dependencies are outside the model.",
+    },
     "C06": {
         "text": "Theorems over the Gallina model of sharks: Lagrange interpolation at zero in the code's shape over the field Fp (root bound by "
                 "synthetic division), recovery from any collection with t distinct points (order, duplicates, surplus), refusal of too few / "
